@@ -26,7 +26,7 @@ RULE = ('case = pre-existing sys / threading trace functions (none or a host fun
         'function separately BETWEEN start and shutdown of one cycle) where every shutdown carries a fault assignment: which plugins raise in shutdown() (Exception or '
         'BaseException class), which of 0-3 pending sends fail, whether the sends are still in flight when shutdown starts (gated '
         'per send: failing ones finish first, the others stay parked beyond the point a non-draining shutdown would return), '
-        'whether a thread started before the shutdown keeps running afterwards (SCALE families: 40 tracepoints installed), whether a REAL snapshot upload (real PushService) '
+        'whether a thread started before the shutdown keeps running afterwards (SCALE families: 40 tracepoints installed), whether a worker thread of the application was already running before start (with its own sys trace function or none: it reports its own sys.gettrace() after every op and must keep what it had), whether a REAL snapshot upload (real PushService) '
         'failed on the channel just before the shutdown (after shutdown() returned no thread running agent code may be alive '
         'and nothing may reach the channel). The first shutdown of a case enumerates ALL '
         'subsets of its fault points (plugins + sends <= 4) across consecutive cases. Run on a real deep.api.Deep with the '
@@ -169,6 +169,8 @@ def gen(rng, tier):
         scale = 40 if (not base['update'] and not base['no_trace'] and rng.random() < 0.3) else 0
         if scale:
             bg = True
+        # a worker thread of the application that is already running before start (own sys trace function, or none)
+        pre_worker = rng.choice(['own', 'none']) if rng.random() < 0.3 else None
         # a real snapshot whose upload fails (once or twice) right before the shutdown
         push_fail = rng.choice([1, 2]) if (not base['no_trace'] and rng.random() < 0.35) else 0
         subsets = list(all_subsets(nplug + ntask))
@@ -185,6 +187,8 @@ def gen(rng, tier):
             if push_fail:
                 sd['push_fail'] = push_fail
             c = dict(base)
+            if pre_worker:
+                c['pre_worker'] = pre_worker
             if scale:
                 c['scale'] = scale
             c['ops'] = head + [sd, {'op': 'hit'}] + ([{'op': 'late_config'}] if bg and rng.random() < 0.6 else []) + tail
@@ -280,6 +284,11 @@ def corpus():
         # SCALE: 40 tracepoints installed; a thread started before the shutdown keeps running and must take no action after
         {'pre_sys': None, 'pre_thr': None, 'no_trace': False, 'nplug': 1, 'scale': 40,
          'ops': [{'op': 'start'}, {'op': 'hit'}, dict(sd, bg_thread=True), {'op': 'hit'}, {'op': 'late_config'}, {'op': 'hit'}]},
+        # a worker thread that was running BEFORE start keeps its own sys trace function (or none) during the run and after
+        {'pre_sys': 'h', 'pre_thr': None, 'no_trace': False, 'nplug': 0, 'pre_worker': 'own',
+         'ops': [{'op': 'start'}, {'op': 'hit'}, dict(sd), {'op': 'hit'}]},
+        {'pre_sys': None, 'pre_thr': 'h', 'no_trace': False, 'nplug': 1, 'pre_worker': 'none',
+         'ops': [{'op': 'start'}, {'op': 'hit'}, dict(sd)]},
         # D18: a thread started before shutdown keeps running
         {'pre_sys': None, 'pre_thr': None, 'no_trace': False, 'nplug': 1,
          'ops': [{'op': 'start'}, {'op': 'hit'}, dict(sd, bg_thread=True), {'op': 'hit'}, {'op': 'late_config'}, {'op': 'hit'}]},
@@ -389,6 +398,30 @@ def run_case(case, out):
                                       {'snapshot': 'no_collect', 'log_msg': 'fill', 'fire_count': '-1', 'fire_period': '0'},
                                       [], []))
     bg = {}
+    # a worker thread of the application that is ALREADY RUNNING before Deep.start (parked, with its own sys trace function
+    # or none): it reports its own sys.gettrace() whenever asked.  The agent hooks the calling thread and threads started
+    # later; a thread that existed before start keeps the trace function it had, during the run and after shutdown.
+    worker = None
+    if case.get('pre_worker'):
+        worker = {'req': threading.Event(), 'ack': threading.Event(), 'stop': threading.Event(), 'seen': None}
+        own = fc_env.host_trace_function(9) if case['pre_worker'] == 'own' else None
+
+        def worker_body():
+            sys.settrace(own)
+            while not worker['stop'].is_set():
+                if worker['req'].wait(0.05):
+                    worker['req'].clear()
+                    worker['seen'] = sys.gettrace()
+                    worker['ack'].set()
+        worker['thread'] = threading.Thread(target=worker_body, daemon=True)
+        worker['thread'].start()
+
+    def worker_hook(handler_):
+        worker['ack'].clear()
+        worker['req'].set()
+        if not worker['ack'].wait(10):
+            raise core.Infra('the pre-existing worker thread did not answer')
+        return hook_tag(worker['seen'], handler_)
     threads_before = {t.ident for t in threading.enumerate()}
     snap_trig = build_trigger('snap', h.files['probe'], h.marks['probe']['P'], {'fire_count': '-1', 'fire_period': '0'}, [], [])
     try:
@@ -405,10 +438,14 @@ def run_case(case, out):
 
         def nlogs():
             return len([e for e in rec.events if e[1] == 'log'])
+        if worker is not None:
+            out['worker_before'] = worker_hook(handler)
 
         def snapshot(op, extra=None):
             st = {'op': op, 'sys': hook_tag(sys.gettrace(), handler), 'thr': hook_tag(threading.gettrace(), handler),
                   'started': bool(deep.started)}
+            if worker is not None:
+                st['worker'] = worker_hook(handler)
             st.update(extra or {})
             states.append(st)
 
@@ -677,6 +714,9 @@ def run_case(case, out):
                 d.poll.shutdown()
         except BaseException:       # noqa: B902
             pass
+        if worker is not None:
+            worker['stop'].set()
+            worker['thread'].join(5)
         dmod.load_plugins = orig_load
         dmod.Resource = orig_resource
         g['grpc'].update = None
@@ -846,6 +886,17 @@ def oracle(case, obs):
         return v
     plugs = ['P99'] + [f'P{i}' for i in range(case['nplug'])]
     stopped_once = False
+    if case.get('pre_worker'):
+        w0 = obs.get('worker_before')
+        want = 9 if case['pre_worker'] == 'own' else None
+        if w0 != want:
+            v.append(f'harness: the pre-existing worker thread reports trace function {w0} before start, expected {want}')
+        for i, st in enumerate(obs['states']):
+            if 'worker' in st and st['worker'] != w0:
+                v.append(f'after op {i} ({st["op"]}): a thread that was already running before start() now has the sys trace '
+                         f'function {st["worker"]!r}; before start it had {w0!r} (the agent hooks the calling thread and threads '
+                         f'started later; hooks present before start are put back exactly)')
+                break
     for i, st in enumerate(obs['states']):
         where = f'after op {i} ({st["op"]})'
         hooks = (st['sys'], st['thr'])
@@ -1019,7 +1070,7 @@ def label(case, obs):
            ('/incycle-hostset' if case['no_trace'] and any(o['op'] == 'host_set' for o in case['ops'][:next(
                (k for k, o in enumerate(case['ops']) if o['op'] == 'shutdown'), 0)]) else '') + \
            (('/startfail-' + case['start_step_fails']) if case.get('start_step_fails') else '') + \
-           ('/scale40' if case.get('scale') else '')
+           ('/scale40' if case.get('scale') else '') + (('/preworker-' + case['pre_worker']) if case.get('pre_worker') else '')
 
 
 def nontrivial(case, obs):
